@@ -17,6 +17,21 @@ def mk(k, v, u):
     return getattr(U, k)(v, u)
 
 
+def mk_inplace(rng, k, v, u):
+    """the quantity (v, u) reached by constructing it in ANOTHER unit and converting it in place: an object's arithmetic must not
+    depend on how it came to its present value and unit.  Returns (object, unit it was constructed in or None)"""
+    us = [x for x in S.units(k) if x != u]
+    if not us or rng.random() > 0.35:
+        return mk(k, v, u), None
+    u0 = rng.choice(us)
+    try:
+        o = mk(k, v * S.ffactor(k, u) / S.ffactor(k, u0), u0)
+        o.to(u, inplace=True)
+        return o, u0
+    except Exception:  # noqa
+        return mk(k, v, u), None
+
+
 def sample_values(rng, k, n):
     vals = [1.0, 0.25, 7.5, 120.0, 3, 1e-3, 2.5e4]
     vals += [rng.uniform(1, 10) * 10.0 ** rng.randint(-4, 5) for _ in range(n)]
@@ -143,14 +158,16 @@ def c06_search(rng, budget):
             for _ in range(reps):
                 ua = rng.choice(S.units(ka))
                 va = abs(rng.uniform(0.5, 20.0)) * (1 if ka in S.POSITIVE or ka in S.NONNEG or rng.random() < 0.7 else -1)
-                a = mk(ka, va, ua)
+                a, a_from = mk_inplace(rng, ka, va, ua)
+                va = a.value
                 if kb in ('float', 'int'):
                     vb = rng.uniform(0.5, 4.0) if kb == 'float' else rng.randint(1, 4)
                     b, ub = vb, None
                 else:
                     ub = rng.choice(S.units(kb))
                     vb = abs(rng.uniform(0.5, 20.0)) * (1 if kb in S.POSITIVE or kb in S.NONNEG or rng.random() < 0.7 else -1)
-                    b = mk(kb, vb, ub)
+                    b, b_from = mk_inplace(rng, kb, vb, ub)
+                    vb = b.value
                 sa = S.si(ka, va, ua)
                 sb = S.si(kb, vb, ub) if ub else F(vb)
                 for op in '+-*/':
@@ -162,6 +179,7 @@ def c06_search(rng, budget):
                     except Exception as e:  # noqa
                         out.append(dict(what=f'({a!r}) {op} ({b!r}) raised {type(e).__name__}', case=dict(op=op, a=[ka, va, ua], b=[kb, vb, ub]), cls='raises'))
                         continue
+                    note = (f' [left operand constructed in {a_from!r} and converted in place]' if a_from else '')
                     if ub is None:
                         wantk = ka if op in '*/' else None
                         wants = {'*': sa * sb, '/': sa / sb}.get(op)
@@ -171,7 +189,7 @@ def c06_search(rng, budget):
                         wantk, wants = S.div_kind(ka, kb), sa / sb
                     else:
                         wantk, wants = S.addsub_kind(ka, kb), (sa + sb if op == '+' else sa - sb)
-                    case = dict(op=op, a=[ka, va, ua], b=[kb, vb, ub])
+                    case = dict(op=op, a=[ka, va, ua], b=[kb, vb, ub], a_constructed_in=a_from)
                     if wantk is None:
                         out.append(dict(what=f'({a!r}) {op} ({b!r}) returned {r!r}; dimensional analysis gives no such operation', case=case, cls='kind'))
                         continue
@@ -184,7 +202,7 @@ def c06_search(rng, budget):
                         out.append(dict(what=f'({a!r}) {op} ({b!r}) is a {gotk}, dimensional analysis dictates {wantk}', case=case, cls='kind'))
                     elif gots is None or abs(gots - wants) > max(abs(wants), abs(sa), abs(sb) if op in '+-' else 0) * F(1, 10 ** 9):
                         cls = 'D6' if is_d6(op, ka, kb) else 'si'
-                        out.append(dict(what=f'({a!r}) {op} ({b!r}) = {r!r}: SI magnitude {float(gots) if gots is not None else None!r}, expected {float(wants)!r}', case=case, cls=cls))
+                        out.append(dict(what=f'({a!r}) {op} ({b!r}) = {r!r}: SI magnitude {float(gots) if gots is not None else None!r}, expected {float(wants)!r}' + note, case=case, cls=cls))
                 # inverse laws
                 if ub is not None and S.base(ka) == S.base(kb):
                     n += 1
